@@ -76,12 +76,9 @@ def pipelineDesign (fuel : Nat) (exts : List PExt) : List HModule → List PModu
     | .ok p => pipelineDesign fuel exts rest (acc ++ [p])
     | .error e => .error e
 
-/-- fuel that the resolver never runs out of on the connections of `h` in practice (compared with the implementation on every
-    run; the theorems hold for every fuel) -/
-def connFuel (c : SConn) : Nat :=
-  match c.width with
-  | .ok w => (c.size + 2) * (2 * w + 4) + 8
-  | .error _ => c.size * 8 + 8
+/-- fuel that the resolver never runs out of on the connections of `h` (`resolve_total`: `needR c` suffices for a connection that
+    has a denotation; `module_elaboration_accepts` uses it) -/
+def connFuel (c : SConn) : Nat := needR c
 
 def fuelOf (h : HModule) : Nat :=
   (h.instances.flatMap fun i => i.conns.map fun pc => connFuel pc.2).foldl max 8
